@@ -5,10 +5,10 @@ export NUMBA_CACHE_DIR=/tmp/numba_cache_confirm_$ID
 DEMO=demo.py; [ -f $OUT/demo.py ] || DEMO=demo.sh
 run_demo() { if [ "$DEMO" = demo.py ]; then (cd $1 && PYTHONPATH=$1 timeout 900 /venv/bin/python $OUT/demo.py); else (cd $1 && PYTHONPATH=$1 timeout 900 sh $OUT/demo.sh); fi; }
 {
-echo "== diff applies to HEAD of /repo?"; git -C /repo apply --check $OUT/patch.diff && echo applies
+echo "== diff applies to HEAD of /repo?"; git -C ${REF:-/repo} apply --check $OUT/patch.diff && echo applies
 echo "== build in worktree"; (cd $WT && /venv/bin/python setup.py build_ext --inplace >/dev/null 2>&1 && echo build-ok)
 echo "== demo WITH change"; run_demo $WT >/tmp/demo_with_$ID.log 2>&1; echo "rc=$?"; tail -3 /tmp/demo_with_$ID.log
-echo "== demo WITHOUT change (/repo)"; run_demo /repo >/tmp/demo_without_$ID.log 2>&1; echo "rc=$?"; tail -3 /tmp/demo_without_$ID.log
+echo "== demo WITHOUT change (${REF:-/repo})"; run_demo ${REF:-/repo} >/tmp/demo_without_$ID.log 2>&1; echo "rc=$?"; tail -3 /tmp/demo_without_$ID.log
 echo "== test suite WITH change"; (cd $WT && PYTHONPATH=$WT timeout 1800 /venv/bin/python -m pytest -q -p no:cacheprovider --timeout=900 --continue-on-collection-errors 2>&1 | tail -3)
 } > $LOG 2>&1
 echo "$ID done"
